@@ -26,8 +26,8 @@ Lemma del_msg_ok_calls dr f s c n sid u req hard :
   ok_reply (h_out (del_msg dr f s c n sid u req hard)) sid ->
   fails f (S n) = false /\ fails f (S (S n)) = false /\ fails f (S (S (S n))) = false.
 Proof.
-  unfold del_msg, call.
-  destruct (negb (is_deleter (user_mode c u)) && negb (is_reader (user_mode c u))); cbn [h_out];
+  unfold del_msg, call. cbv zeta.
+  destruct (negb (hard && is_deleter (user_mode c u)) && negb (is_reader (user_mode c u))); cbn [h_out];
     [intros H; exfalso; eapply not_ok_single; [|exact H]; lia|].
   destruct (dr (c_lastid c) req); cbn [h_out]; [|intros H; exfalso; eapply not_ok_single; [|exact H]; lia].
   destruct (fails f (S n)); cbn [negb h_out]; [intros H; exfalso; eapply not_ok_single; [|exact H]; lia|].
